@@ -20,7 +20,16 @@ Spec forms:
     ('mapseq', k)  ('mapslice', k, [sl..])    the k-th mapped sequence m, m[sl1][sl2]...; sl = (start, stop, step)
     ('mapelem', k, [sl..], p)                 m[sl1]..[p] for an int p: a tasklet on one block
     ('custom', s)  ('nohash_val', v)  ('nohash_task', i)  ('opaque', [i..])  ('identity', s)
+    ('identity_val', v)                       identity(v) for a plain value: a real Task(_identity, v), run when realised
+    ('subopaque', kind, [i..])                an instance of a list/tuple/dict SUBCLASS holding tasks: value() hands it over
+                                              unchanged, Task.dependencies() (isinstance) walks into it  -> AOpaque [tasks] v
+                                              (('opaque', [i..]), a frozenset of tasks, is AOpaque [] v)
+Plain values (in 'val', 'nohash_val', results) may be instances of container subclasses (namedtuple Pt, MyList,
+MyTuple, MyDict, OrderedDict, defaultdict): value() must hand them over with their TYPE; the model sees them as
+their base kind (VList / VTuple / VDict), the direct oracles compare the type as well.
 """
+import copy
+from collections import namedtuple, OrderedDict, defaultdict
 from functools import partial
 
 from . import jugrun            # puts the repository under test on sys.path
@@ -71,8 +80,35 @@ for _f in SRC_FUNS:
 del _f
 
 
+Pt = namedtuple('Pt', ['x', 'y'])
+
+
+class MyList(list):
+    pass
+
+
+class MyTuple(tuple):
+    pass
+
+
+class MyDict(dict):
+    pass
+
+
+def is_sub(o):
+    """an instance of a proper subclass of list / tuple / dict"""
+    return isinstance(o, (list, tuple, dict)) and type(o) not in (list, tuple, dict)
+
+
+def type_tag(o):
+    if isinstance(o, defaultdict):
+        return 'defaultdict:' + getattr(o.default_factory, '__name__', repr(o.default_factory))
+    return type(o).__name__
+
+
 def canon(o):
-    """values with Task objects / sets made comparable and picklable"""
+    """values with Task objects / sets made comparable and picklable; the TYPE of a container-subclass
+    instance (at any depth) is part of the canonical form"""
     if isinstance(o, Task):
         h = o.hash()
         return ('T', h.decode('ascii') if isinstance(h, bytes) else h)
@@ -82,9 +118,41 @@ def canon(o):
         return tuple(canon(x) for x in o)
     if type(o) == dict:
         return {k: canon(v) for k, v in o.items()}
+    if isinstance(o, list):
+        return ('SUB', type_tag(o), [canon(x) for x in o])
+    if isinstance(o, tuple):
+        return ('SUB', type_tag(o), tuple(canon(x) for x in o))
+    if isinstance(o, dict):
+        return ('SUB', type_tag(o), {k: canon(v) for k, v in o.items()})
     if type(o) in (set, frozenset):
         return ('S', sorted((canon(x) for x in o), key=repr))
     return o
+
+
+def pyrepr(o):
+    """source text that evaluates (read_spec) to an equal object of the same types - repr() does not do that for
+    defaultdict and for subclasses without their own __repr__"""
+    if type(o) == list:
+        return '[' + ', '.join(pyrepr(x) for x in o) + ']'
+    if type(o) == tuple:
+        return '(' + ', '.join(pyrepr(x) for x in o) + (',' if len(o) == 1 else '') + ')'
+    if type(o) == dict:
+        return '{' + ', '.join('%s: %s' % (pyrepr(k), pyrepr(v)) for k, v in o.items()) + '}'
+    if isinstance(o, Pt):
+        return 'Pt(%s, %s)' % (pyrepr(o.x), pyrepr(o.y))
+    if isinstance(o, MyList):
+        return 'MyList(%s)' % pyrepr(list(o))
+    if isinstance(o, MyTuple):
+        return 'MyTuple(%s)' % pyrepr(tuple(o))
+    if isinstance(o, MyDict):
+        return 'MyDict(%s)' % pyrepr(dict(o))
+    if isinstance(o, OrderedDict):
+        return 'OrderedDict(%s)' % pyrepr(list(o.items()))
+    if isinstance(o, defaultdict):
+        return 'defaultdict(%s, %s)' % (o.default_factory.__name__, pyrepr(dict(o)))
+    if is_sub(o):
+        raise ValueError('pyrepr: unknown container subclass %r' % type(o))
+    return repr(o)
 
 
 def consumer(*a, **k):
@@ -136,11 +204,12 @@ def enc_val(o, tids, atoms):
         if not all(v is None or type(v) == int for v in (o.start, o.stop, o.step)):
             raise ValueError('cannot encode slice %r' % (o,))
         return '(VSlice %s)' % sl_lit(o)
-    if type(o) == list:
+    # instances of container subclasses are seen as their base kind (the model has no types)
+    if isinstance(o, list):
         return '(VList %s)' % listlit([enc_val(x, tids, atoms) for x in o])
-    if type(o) == tuple:
+    if isinstance(o, tuple):
         return '(VTuple %s)' % listlit([enc_val(x, tids, atoms) for x in o])
-    if type(o) == dict:
+    if isinstance(o, dict):
         return '(VDict %s)' % listlit(['(%s, %s)' % (key_lit(k, atoms), enc_val(v, tids, atoms)) for k, v in o.items()])
     if type(o) in (set, frozenset):
         inner = sorted(('T:%d' % tids(x.hash())) if isinstance(x, Task) else repr(x) for x in o)
@@ -156,7 +225,44 @@ def range_lit(r):
 ATOMS = [0, 1, 2, 7, -3, 'a', 'b', None, 1.5, True]
 
 
+def gen_subclass(rng, depth=1):
+    """an instance of a list / tuple / dict subclass with plain content"""
+    k = rng.randrange(6)
+    item = lambda: gen_result(rng, depth - 1)
+    keys = rng.sample(['a', 'b', 'c', 0, 1], rng.randint(1, 3))
+    if k == 0:
+        return Pt(item(), item())
+    if k == 1:
+        return MyList([item() for _ in range(rng.randint(1, 3))])
+    if k == 2:
+        return MyTuple([item() for _ in range(rng.randint(1, 3))])
+    if k == 3:
+        return MyDict((kk, item()) for kk in keys)
+    if k == 4:
+        return OrderedDict((kk, item()) for kk in keys)
+    return defaultdict(rng.choice([int, list]), [(kk, item()) for kk in keys])
+
+
+def mk_subopaque(kind, tasks):
+    if kind == 'Pt':
+        return Pt(tasks[0], tasks[1] if len(tasks) > 1 else 2)
+    if kind == 'MyList':
+        return MyList(list(tasks) + [1])
+    if kind == 'MyTuple':
+        return MyTuple(list(tasks))
+    if kind == 'OrderedDict':
+        return OrderedDict(('k%d' % j, t) for j, t in enumerate(tasks))
+    if kind == 'defaultdict':
+        return defaultdict(int, [('k%d' % j, t) for j, t in enumerate(tasks)])
+    return MyDict(('k%d' % j, t) for j, t in enumerate(tasks))
+
+
+SUBOPAQUE_KINDS = ['Pt', 'MyList', 'MyTuple', 'OrderedDict', 'defaultdict', 'MyDict']
+
+
 def gen_result(rng, depth=2):
+    if depth > 0 and rng.random() < 0.12:
+        return gen_subclass(rng, depth)
     r = rng.random()
     if depth <= 0 or r < 0.25:
         return rng.choice(ATOMS)
@@ -170,6 +276,8 @@ def gen_result(rng, depth=2):
 
 def gen_container(rng, depth=3):
     """a result worth indexing into"""
+    if rng.random() < 0.25:
+        return gen_subclass(rng, depth)
     r = rng.random()
     if r < 0.5:
         return [gen_result(rng, depth - 1) for _ in range(rng.randint(1, 4))]
@@ -191,7 +299,9 @@ def gen_indexlike(rng):
 
 def read_spec(text):
     """inverse of repr() on specs / world descriptions (written by this module into replay files)"""
-    return eval(text, {'__builtins__': {}}, {'slice': slice, 'True': True, 'False': False, 'None': None})
+    return eval(text, {'__builtins__': {}}, {'slice': slice, 'True': True, 'False': False, 'None': None, 'int': int, 'list': list,
+                                              'Pt': Pt, 'MyList': MyList, 'MyTuple': MyTuple, 'MyDict': MyDict,
+                                              'OrderedDict': OrderedDict, 'defaultdict': defaultdict})
 
 
 class Missing(Exception):
@@ -232,6 +342,10 @@ class World:
                              'stored': [allst or rng.random() < stored_prob * 0.7 for _ in range(nb)]})
             desc = {'results': results, 'stored': [rng.random() < stored_prob for _ in range(nbase)], 'maps': maps}
         self.desc = desc
+        self.dump = dump
+        self.extra = []        # tasks created by identity(plain value)
+        self._ident = {}
+        self.oom_reason = ''
         RESULTS.clear()
         RESULTS.update(enumerate(desc['results']))
         del CALLS[:]
@@ -244,6 +358,7 @@ class World:
             self.base.append((t, res, stored))
             self.tids(t.hash())
         self.reads = set()
+        self._ref_cache = {}
         self.out_of_model = False
         self.maps = []         # (block_access, inputs, bs, [block tasks], [stored? per block])
         for md in desc['maps']:
@@ -268,10 +383,25 @@ class World:
                 self._stored[b.hash()] = s
 
     def describe(self):
-        return repr(self.desc)
+        return pyrepr(self.desc)
 
     def all_tasks(self):
-        return [t for t, _, _ in self.base] + [b for m in self.maps for b in m[3]]
+        return [t for t, _, _ in self.base] + [b for m in self.maps for b in m[3]] + list(self.extra)
+
+    def identity_task(self, v):
+        """identity(v) for a plain value v: Task(_identity, v); executed at once (when this world fills its store)"""
+        k = pyrepr(v)
+        if k not in self._ident:
+            t = jug.utils.identity(v)
+            h = t.hash()
+            self.tids(h)
+            self._results[h] = v
+            self._stored[h] = bool(self.dump)
+            if self.dump and not t.can_load():
+                t.run()
+            self.extra.append(t)
+            self._ident[k] = t
+        return self._ident[k]
 
     def unload_all(self):
         for t in self.all_tasks():
@@ -299,12 +429,27 @@ class World:
             raise KeyError(h)
         if not self._stored[h]:
             raise Missing()
-        return self._results[h]
+        # one private copy per evaluation: like a Task, which loads its result once and then hands out the same
+        # object (a defaultdict indexed with a missing key changes it for every later reader)
+        if h not in self._ref_cache:
+            self._ref_cache[h] = copy.deepcopy(self._results[h])
+        return self._ref_cache[h]
+
+    def _oom(self, why):
+        self.out_of_model = True
+        self.oom_reason = why
 
     def _index(self, o, i):
-        # Python semantics the model does not have: str/bytes are indexable, True/False index like 1/0
+        # Python semantics the model does not have: str/bytes are indexable, True/False index like 1/0,
+        # a defaultdict invents missing entries
         if isinstance(o, (str, bytes)) or isinstance(i, bool):
-            self.out_of_model = True
+            self._oom('str index / bool index / return_tuple of dict')
+        if isinstance(o, defaultdict):
+            try:
+                if i not in o:
+                    self._oom('defaultdict indexed with a missing key')
+            except TypeError:
+                pass
         return o[i]
 
     def _positions(self, k, slices):
@@ -352,7 +497,7 @@ class World:
                 return (o,)
             _, i, n = f
             if isinstance(o, (str, bytes, dict)):
-                self.out_of_model = True         # len()/[] work on them; the model knows sequences only
+                self._oom('str index / bool index / return_tuple of dict')   # len()/[] work on them; the model knows sequences only
             if len(o) != n:
                 raise ValueError('wrong length')
             return o[i]
@@ -372,18 +517,31 @@ class World:
             return self.base[s[1]][0]
         if tag == 'opaque':
             return frozenset(self.base[i][0] for i in s[1])
+        if tag == 'identity_val':
+            self._oom('identity(plain value): a task created and run on the fly')
+            return self.result_of(self.identity_task(s[1]))
+        if tag == 'subopaque':
+            # value() hands it over as it is (tasks inside stay Task objects); the walk declares them:
+            # Model/Deps.v  AOpaque declared v
+            return mk_subopaque(s[1], [self.base[i][0] for i in s[2]])
         raise ValueError('bad spec %r' % (s,))
 
     def reference(self, s):
         """-> (outcome, reads, out_of_model); outcome = ('ok', v) | ('missing',) | ('raised', exception name)"""
         self.reads = set()
+        self._ref_cache = {}
         self.out_of_model = False
+        self.oom_reason = ''
         try:
             out = ('ok', self.ref(s))
         except Missing:
             out = ('missing',)
         except Exception as e:
             out = ('raised', type(e).__name__)
+        # syntactic reasons hold even when the evaluation stopped before reaching the node
+        text = repr(s)
+        if "'identity_val'" in text:
+            self._oom('identity(plain value): a task created and run on the fly')
         return out, set(self.reads), self.out_of_model
 
     # ---- the tasks underneath, read off the syntax
@@ -393,6 +551,10 @@ class World:
             return set()
         if tag == 'task':
             return {self.base[s[1]][0].hash()}
+        if tag == 'identity_val':
+            return {self.identity_task(s[1]).hash()}
+        if tag == 'subopaque':
+            return {self.base[i][0].hash() for i in s[2]}
         if tag in ('list', 'tuple'):
             return set().union(*[self.occ(x) for x in s[1]]) if s[1] else set()
         if tag == 'dict':
@@ -415,6 +577,8 @@ class World:
         tag = s[0]
         if tag == 'task':
             return self._stored[self.base[s[1]][0].hash()]
+        if tag == 'identity_val':
+            return self._stored[self.identity_task(s[1]).hash()]
         if tag in ('getitem', 'iteratetask', 'fun', 'return_tuple'):
             return self.can_load_expected(s[1])
         if tag == 'identity':
@@ -474,6 +638,10 @@ class World:
             return frozenset(self.base[i][0] for i in s[1])
         if tag == 'identity':
             return jug.utils.identity(self.realise(s[1]))
+        if tag == 'identity_val':
+            return self.identity_task(s[1])
+        if tag == 'subopaque':
+            return mk_subopaque(s[1], [self.base[i][0] for i in s[2]])
         raise ValueError('bad spec %r' % (s,))
 
     # ---- spec -> Gallina arg literal
@@ -523,9 +691,15 @@ class World:
             return '(ANoHashTask %s)' % self.tid_lit(self.base[s[1]][0])
         if tag == 'opaque':
             ts = frozenset(self.base[i][0] for i in s[1])
-            return '(AOpaque %s %s)' % (listlit([self.tid_lit(t) for t in ts]), enc_val(ts, self.tids, self.atoms))
+            # neither value() nor the walk looks into a frozenset: no declared inner task
+            return '(AOpaque [] %s)' % enc_val(ts, self.tids, self.atoms)
         if tag == 'identity':
             return self.lit(s[1])          # identity(task or tasklet) is that very object
+        if tag == 'identity_val':
+            return '(ATask %s)' % self.tid_lit(self.identity_task(s[1]))
+        if tag == 'subopaque':
+            ts = [self.base[i][0] for i in s[2]]
+            return '(AOpaque %s %s)' % (listlit([self.tid_lit(t) for t in ts]), enc_val(mk_subopaque(s[1], ts), self.tids, self.atoms))
         raise ValueError('bad spec %r' % (s,))
 
     # ---- random specs
@@ -533,7 +707,7 @@ class World:
         rng = self.rng
         r = rng.random()
         if depth <= 0 or r < 0.10:
-            return ('val', gen_result(rng, 1))
+            return ('val', gen_subclass(rng, 2) if rng.random() < 0.25 else gen_result(rng, 1))
         if r < 0.24:
             return self.gen_task_spec()
         if r < 0.32:
@@ -552,12 +726,18 @@ class World:
                 rng.choice([('list', [self.gen_task_spec(), self.gen_tasklet_spec(depth - 1)]),
                             ('dict', [('a', self.gen_task_spec())]),
                             ('tuple', [self.gen_task_spec(), ('val', 3)])])
+            if rng.random() < 0.2:
+                inner = ('val', gen_subclass(rng, 2))
             return ('custom', inner)
         if r < 0.92:
-            if rng.random() < 0.5:
+            if rng.random() < 0.4:
                 return ('nohash_task', rng.randrange(len(self.base)))
-            return ('nohash_val', gen_result(rng, 1))
+            return ('nohash_val', gen_subclass(rng, 2) if rng.random() < 0.4 else gen_result(rng, 1))
+        if r < 0.935:
+            return ('subopaque', rng.choice(SUBOPAQUE_KINDS), sorted(rng.sample(range(len(self.base)), rng.randint(1, min(2, len(self.base))))))
         if r < 0.95:
+            return ('identity_val', gen_subclass(rng, 2) if rng.random() < 0.7 else gen_result(rng, 2))
+        if r < 0.965:
             return ('opaque', sorted(rng.sample(range(len(self.base)), rng.randint(1, min(2, len(self.base))))))
         return ('identity', self.gen_task_spec() if rng.random() < 0.5 else self.gen_tasklet_spec(depth - 1))
 
@@ -668,10 +848,10 @@ def build_program(desc, spec, how='pos'):
 
 
 JUGFILE = '''import harness.depsgen as G
-G.build_program(%s, %s, %r)
+G.build_program(G.read_spec(%r), G.read_spec(%r), %r)
 '''
 
 
 def write_jugfile(path, desc, spec, how='pos'):
     with open(path, 'w') as fh:
-        fh.write(JUGFILE % (repr(desc), repr(spec), how))
+        fh.write(JUGFILE % (pyrepr(desc), pyrepr(spec), how))
